@@ -210,6 +210,10 @@ def rnd_parts(rng):
         parts = [parts[0], rng.choice(['', b'', 0])] if rng.random() < 0.5 else [rng.choice(['', 0]), parts[0]]
     elif r < 0.22:
         parts = parts[:1]
+    elif r < 0.25:
+        # an empty part with an explicitly requested numeric / alphanumeric mode (the library refuses it; if it did not,
+        # the empty numeric segment of a Micro QR symbol would read as the terminator)
+        parts.insert(rng.randint(0, len(parts) - 1), ('', rng.choice([1, 2])))
     return parts
 
 
